@@ -3,6 +3,7 @@ from __future__ import annotations
 
 import copy
 import json
+import math
 import os
 import re
 import tempfile
@@ -37,6 +38,7 @@ def pub(h):
          "err2": [nrs(x) for x in np.asarray(h.errors2).ravel()],
          "shape": list(np.asarray(h.frequencies).shape),
          "dtype": str(h.dtype), "keep_missed": bool(h.keep_missed), "adaptive": bool(h.is_adaptive()),
+         "adaptive_axes": [bool(b.is_adaptive()) for b in binnings],
          "name": h.name, "title": h.title, "axis_names": [None if n is None else str(n) for n in h.axis_names],
          "meta": {k: v for k, v in h.meta_data.items() if k not in ("name", "title", "axis_names")}}
     if one:
@@ -46,6 +48,89 @@ def pub(h):
     d["grid"] = [[rs(b.bin_width), rs(b._shift), int(b._times_min or 0), int(b.bin_count)] if isinstance(b, FixedWidthBinning) else None
                  for b in binnings]
     return d
+
+
+def snap(obj):
+    """pub() of a histogram, or name / title / pub() of every member of a collection"""
+    from physt.histogram_collection import HistogramCollection
+    if isinstance(obj, HistogramCollection):
+        # a collection without a title of its own shows its name (the constructor's rule; when it is applied is not pinned)
+        return {"class": type(obj).__name__, "name": obj.name, "title": obj.title or obj.name, "members": [pub(m) for m in obj.histograms]}
+    return pub(obj)
+
+
+def wellformed(obj):
+    """contents and squared errors have the shape the binnings give (anything else is not a histogram C08 speaks about)"""
+    from physt.histogram_collection import HistogramCollection
+    from physt.histogram1d import Histogram1D
+    if isinstance(obj, HistogramCollection) and not all(m.binning == obj.binning for m in obj.histograms):
+        return False            # the class's own invariant (constructor, add): one binning for all members
+    for h in (obj.histograms if isinstance(obj, HistogramCollection) else [obj]):
+        bs = [h.binning] if isinstance(h, Histogram1D) else list(h.binnings)
+        shape = tuple(int(b.bin_count) for b in bs)
+        if tuple(np.shape(h.frequencies)) != shape or tuple(np.shape(h.errors2)) != shape:
+            return False
+        if any(len(np.asarray(b.bins).reshape(-1, 2)) != b.bin_count for b in bs):
+            return False
+    return True
+
+
+FIELDS = ("class", "binning_types", "bins", "freq", "err2", "shape", "dtype", "missed", "keep_missed", "adaptive", "adaptive_axes",
+          "name", "title", "axis_names", "meta", "grid")
+
+
+def compare(a, b, where):
+    """field by field: the property's list"""
+    fails = []
+    if "members" in a or "members" in b:
+        if b.get("class") != "HistogramCollection" or "members" not in b:
+            return [f"class: {where}: collection parsed as {b.get('class')}"]
+        if a["name"] != b["name"] or a["title"] != b["title"]:
+            fails.append(f"collection_meta: {where}: name/title {a['name']}/{a['title']} -> {b['name']}/{b['title']}")
+        if len(a["members"]) != len(b["members"]):
+            fails.append(f"collection_members: {where}: member count {len(a['members'])} -> {len(b['members'])}")
+        pairs = [(f"{where}: member{i}", x, y) for i, (x, y) in enumerate(zip(a["members"], b["members"]))]
+    else:
+        pairs = [(where, a, b)]
+    for name, x, y in pairs:
+        for f in FIELDS:
+            if x[f] != y[f]:
+                if f == "missed" and not x["keep_missed"]:
+                    continue
+                fails.append(f"roundtrip_{f}: {name}: {x[f]} -> {y[f]}")
+    return fails
+
+
+def doc_diff(a, b, path=""):
+    """entries (per histogram) in which two documents differ"""
+    if isinstance(a, dict) and isinstance(b, dict) and "histograms" in a and "histograms" in b and len(a["histograms"]) == len(b["histograms"]):
+        out = [k for k in sorted(set(a) | set(b)) if k != "histograms" and a.get(k) != b.get(k)]
+        for i, (x, y) in enumerate(zip(a["histograms"], b["histograms"])):
+            out += doc_diff(x, y, f"histograms[{i}].")
+        return out
+    if isinstance(a, dict) and isinstance(b, dict):
+        stale = (a.get("missed_keep") is False and b.get("missed_keep") is False and len(a.get("binnings") or []) == 1
+                 and isinstance(a.get("missed"), list) and any(x != 0 for x in a["missed"])
+                 and isinstance(b.get("missed"), list) and all(x == 0 for x in b["missed"]))
+        return [path + k + ("(missed_keep off)" if k == "missed" and stale else "")
+                for k in sorted(set(a) | set(b)) if a.get(k) != b.get(k)]
+    return [path or "document"]
+
+
+def canon(text):
+    """a document as a JSON value: objects are unordered; NaN tokens compare equal; the missed counts are numbers (0.0 = 0: the
+    type of the array that holds them is not observable, it turns float when a NaN marker has been stored in it once)"""
+    def walk(x):
+        if isinstance(x, dict) and x.get("histogram_type") == "histogram_collection" and not x.get("title"):
+            x = {**x, "title": x.get("name")}           # a collection without a title of its own shows its name
+        if isinstance(x, dict):
+            return {k: ([int(y) if isinstance(y, float) and y == int(y) else y for y in v]
+                        if k == "missed" and isinstance(v, list) and all(isinstance(y, (int, float, str)) for y in v) and
+                        not any(isinstance(y, float) and (math.isinf(y)) for y in v) else walk(v)) for k, v in x.items()}
+        if isinstance(x, list):
+            return [walk(y) for y in x]
+        return x
+    return json.dumps(walk(json.loads(text, parse_constant=lambda c: "<" + c + ">")), sort_keys=True)
 
 
 def parse_version(s):
@@ -65,13 +150,28 @@ class C08:
             "(zero / non-zero / NaN markers) x keep_missed x custom squared errors (large counts with a few non-unit weights) x "
             "metadata (name, title, axis names, custom JSON-representable entries): parse_json(to_json()), load_json after "
             "saving to a file, a second serialisation; and documents declaring required versions (older, equal, newer in patch / "
-            "minor / major, pre-releases) against the running version. non-trivial = non-zero contents; distinct = case hash")
+            "minor / major, pre-releases) against the running version; every 8th case a serialise - mutate - serialise history on "
+            "one object (1-D, N-d incl. all-fixed-width axes, transformed, collection and its members; in 1/4 of them next to a second "
+            "object built separately): 2-4 steps of [to_json / to_dict / file / save_json / binning.to_dict / full round trip, result "
+            "thrown away] then one public change (set_adaptive on / off by method, property or binning; fill / fill_n / << inside, "
+            "outside and growing adaptive bins; *=, /=, +=, -=; set_dtype; name / title / axis names / meta_data entries; in-place "
+            "merge_bins; keep_missed; missed slots; frequencies / errors2 setters; normalize; collection add / create), after each of "
+            "which the round trip must reproduce the object as it is then, field by field, serialise again to the same document, and "
+            "leave the untouched object's document as it was. non-trivial = non-zero contents; distinct = case hash")
     EXTRA_TRUST = ["CPython json and the shortest round-trip repr of doubles (the text layer) are trusted, not modelled"]
     ASSUMPTIONS = ["the model covers 1-D histograms over static / fixed-width binnings and the version order; the other classes and "
-                   "binning types are covered by the round-trip oracle on the implementation"]
+                   "binning types are covered by the round-trip oracle on the implementation",
+                   "the serialise - mutate - serialise histories (kind jsonseq) have no counterpart in the model's op language: oracle only; "
+                   "a history stops without a verdict when a change leaves an object that is no histogram (contents not of the binnings' "
+                   "shape, collection members with different binnings) or a refused call changed something (C18's subject)"]
 
     def gen_case(self, rng, k, tier):
+        if k % 8 == 3:
+            return self.gen_seq(rng)
         kind = rng.choice(["h1", "h1", "h1", "nd", "special", "collection", "version"])
+        return self.gen_plain(rng, kind)
+
+    def gen_plain(self, rng, kind, bts=None, dts=None):
         if kind == "version":
             import physt
             cur = physt.__version__
@@ -91,8 +191,8 @@ class C08:
         if rng.random() < 0.3:
             meta["custom"] = rng.choice([1, "text", [1, 2, 3], {"a": 1.5}, None, True])
         if kind == "h1":
-            bt = rng.choice(["static", "static", "numpy", "fixed", "fixed_adaptive", "exponential"])
-            dt = rng.choice(["int64", "int64", "float64", "int32", "int16", "float32", "float16", "float128"])
+            bt = rng.choice(bts or ["static", "static", "numpy", "fixed", "fixed_adaptive", "exponential"])
+            dt = rng.choice(dts or ["int64", "int64", "float64", "int32", "int16", "float32", "float16", "float128"])
             pairs, t = gen1.rising_bins(rng)
             spec = {"bt": bt, "dtype": dt, "keep": rng.random() < 0.75, "meta": meta,
                     "axis_name": rng.choice([None, "x", "energy"])}
@@ -147,6 +247,113 @@ class C08:
         return {"kind": "jsoncol", "pairs": [[rs(l), rs(r)] for l, r in pairs], "members": members,
                 "name": rng.choice([None, "coll"]), "title": rng.choice([None, "Collection title"]), "tags": ["collection"]}
 
+    # ------------------------------------------------------------------ serialise - mutate - serialise sequences
+    SEQ_BTS = ["static", "numpy", "fixed", "fixed", "fixed", "fixed_adaptive", "fixed_adaptive", "exponential"]
+    SEQ_DTS = ["int64", "int64", "float64", "float64", "int32", "int16", "float32", "float16"]
+    SER = ["to_json", "to_json", "to_dict", "file", "save_json", "binning_to_dict", "parse", "twice", "none"]
+
+    def gen_seq(self, rng):
+        """one object (or two that share nothing), and a history  (serialise, mutate)*  on it; after every mutation the
+        round trip must reproduce the object as it is then"""
+        kind = rng.choice(["h1", "h1", "h1", "nd", "nd", "special", "collection"])
+        base = self.gen_plain(rng, kind, bts=self.SEQ_BTS, dts=self.SEQ_DTS)
+        if kind == "nd":
+            if rng.random() < 0.6:            # every axis fixed-width, so that the adaptivity can be switched
+                adaptive = rng.random() < 0.3
+                axes = base["init"]["axes"]
+                for i, a in enumerate(axes):
+                    n = len(a["bins"]) if a["t"] == "static" else a["count"]
+                    w = rng.choice([1.0, 0.5, 0.25, 2.0])
+                    axes[i] = gen1.fixed_json(w, rng.randint(-3, 3), n, rng.choice([0.0, 0.0, 0.5 * w]), adaptive=adaptive)
+            d = len(base["init"]["axes"])
+        elif kind == "collection":
+            if rng.random() < 0.6:            # a shared fixed-width binning instead of the static one
+                n = len(base["pairs"])
+                base["fixed"] = {"w": rs(rng.choice([1.0, 0.5, 2.0])), "tmin": rng.randint(-3, 3), "count": n,
+                                 "shift": rs(rng.choice([0.0, 0.0, 0.25])), "adaptive": rng.random() < 0.3}
+            d = 1
+        elif kind == "special":
+            d = len(base["axes"])
+        else:
+            d = 1
+        one = kind in ("h1", "collection") or (kind == "special" and d == 1)
+        # whether the adaptivity can be switched at all (fixed-width binnings only), and what it is at the start
+        if kind == "h1":
+            can, flag = base["spec"]["bt"] in ("fixed", "fixed_adaptive"), base["spec"]["bt"] == "fixed_adaptive"
+        elif kind == "nd":
+            can = all(a["t"] == "fixed" for a in base["init"]["axes"])
+            flag = can and all(a["adaptive"] for a in base["init"]["axes"])
+        elif kind == "collection":
+            can, flag = "fixed" in base, bool(base.get("fixed", {}).get("adaptive"))
+        else:
+            can, flag = False, False
+        twin = rng.random() < 0.25
+        state = [flag, flag]
+        steps = []
+        for _ in range(rng.choice([2, 2, 3, 3, 4])):
+            st = {"ser": rng.choice(self.SER), "on": rng.randint(0, 1) if twin else 0}
+            st.update(self.rand_mutation(rng, kind, d, one, can, state[st["on"]]))
+            if st["op"] == "set_adaptive":
+                state[st["on"]] = st["v"]
+            if kind == "collection":
+                st["member"] = rng.choice([None, 0, 0, 1, 2]) if st["op"] in ("set_adaptive", "name", "title") else rng.choice([0, 0, 1, 2])
+                if st["member"] is None and st["op"] == "title" and not st["v"]:
+                    st["v"] = "new title"       # a collection's empty title means "use the name" (constructor), not a value
+
+            steps.append(st)
+        tags = ["seq", "seq:base:" + kind] + (["seq:twin"] if twin else [])
+        return {"kind": "jsonseq", "base": base, "twin": twin, "steps": steps, "tags": tags}
+
+    def rand_mutation(self, rng, kind, d, one, can_adapt=True, adaptive_now=False):
+        """a public call that changes what has to be written"""
+        ops = ["set_adaptive"] * (5 if can_adapt else 1) + ["fill"] * 3 + ["fill_n"] * 2 + ["imul", "itruediv", "iadd", "isub", "set_dtype", "set_dtype",
+               "name", "title", "axis_names", "meta", "meta", "merge_bins", "keep_missed", "set_freq", "set_err2", "normalize"]
+        if one:
+            ops += ["missed_slot"] * 2
+        if kind == "collection":
+            ops = [o for o in ops if o != "merge_bins"] + ["col_add", "col_create"]      # members keep one common binning
+        op = rng.choice(ops)
+        m = {"op": op}
+        upos = [-0.4, 0.0, 0.1, 0.5, 0.5, 0.77, 1.0, 1.3, 2.5]
+        if op == "set_adaptive":
+            m["v"] = (not adaptive_now) if rng.random() < 0.7 else adaptive_now
+            m["via"] = rng.choice(["method", "method", "property", "binning"])
+            m["axis"] = rng.randrange(d)
+        elif op == "fill":
+            m["u"] = [rng.choice(upos) for _ in range(d)]
+            m["w"] = rng.choice([None, None, 1, 2, 0.5])
+            m["via"] = rng.choice(["fill", "fill", "lshift"]) if m["w"] is None else "fill"
+        elif op == "fill_n":
+            n = rng.randint(0, 4)
+            m["u"] = [[rng.choice(upos) for _ in range(d)] for _ in range(n)]
+            m["w"] = None if rng.random() < 0.6 else [rng.choice([1, 2, 0.5]) for _ in range(n)]
+        elif op in ("imul", "itruediv"):
+            m["c"] = rng.choice([2, 2, 0.5, 4])
+        elif op == "set_dtype":
+            m["dtype"] = rng.choice(["int64", "float64", "int32", "float32", "int16", "float16", "int8", "uint16"])
+            m["via"] = rng.choice(["method", "property"])
+        elif op in ("name", "title"):
+            m["v"] = rng.choice(["changed", "", "n2 \u00e9", None])
+        elif op == "axis_names":
+            m["v"] = rng.sample(["p", "q", "r", "s", "t t"], d)
+        elif op == "meta":
+            m["key"] = rng.choice(["custom", "custom", "unit", "run"])
+            m["v"] = rng.choice([2, "other", [4, 5], {"b": [1, 2.5]}, None, False, 0.1, "__delete__"])
+        elif op == "merge_bins":
+            m["amount"] = rng.choice([1, 2, 2, 3])
+            m["axis"] = rng.choice([None] + list(range(d)))
+        elif op == "keep_missed":
+            m["v"] = rng.random() < 0.5
+        elif op in ("set_freq", "set_err2"):
+            m["add"] = rng.choice([1, 3, 0.5])
+        elif op == "missed_slot":
+            m["slot"] = rng.choice(["underflow", "overflow", "inner_missed"])
+            m["v"] = rng.choice([0, 1, 7, 2.5, None])
+        elif op == "col_create":
+            m["u"] = [rng.choice(upos) for _ in range(rng.randint(0, 3))]
+        return m
+
+
     # ------------------------------------------------------------------ build the object
     def build(self, case):
         from physt.binnings import ExponentialBinning, FixedWidthBinning, NumpyBinning, StaticBinning
@@ -194,15 +401,217 @@ class C08:
                 return klass(edges[0], f, underflow=case["missed"], **kw)
             return klass(edges, f, missed=case["missed"], **kw)
         if k == "jsoncol":
-            b = StaticBinning(np.array([[impl1.fl(l), impl1.fl(r)] for l, r in case["pairs"]]))
+            if case.get("fixed"):
+                fx = case["fixed"]
+                b = FixedWidthBinning(bin_width=impl1.fl(fx["w"]), bin_count=fx["count"], bin_times_min=fx["tmin"],
+                                      bin_shift=impl1.fl(fx["shift"]), adaptive=fx["adaptive"])
+            else:
+                b = StaticBinning(np.array([[impl1.fl(l), impl1.fl(r)] for l, r in case["pairs"]]))
             hs = [Histogram1D(b, np.array(m["freq"]), name=m["name"], underflow=m["under"]) for m in case["members"]]
             return HistogramCollection(*hs, name=case["name"], title=case["title"])
         raise KeyError(k)
+
+    # ------------------------------------------------------------------ sequences on one object
+    @staticmethod
+    def binnings_of(h):
+        from physt.histogram1d import Histogram1D
+        from physt.histogram_collection import HistogramCollection
+        if isinstance(h, HistogramCollection):
+            return [h.binning] + [m.binning for m in h.histograms]
+        return [h.binning] if isinstance(h, Histogram1D) else list(h.binnings)
+
+    def serialise(self, obj, how):
+        """a serialisation whose result is thrown away"""
+        from physt.io import parse_json, save_json
+        if how == "to_json":
+            obj.to_json()
+        elif how == "to_dict":
+            obj.to_dict()
+        elif how == "file":
+            fd, path = tempfile.mkstemp(suffix=".json")
+            os.close(fd)
+            try:
+                obj.to_json(path)
+            finally:
+                os.unlink(path)
+        elif how == "save_json":
+            save_json(obj)
+        elif how == "binning_to_dict":
+            for b in self.binnings_of(obj):
+                b.to_dict()
+        elif how == "parse":
+            parse_json(obj.to_json())
+        elif how == "twice":
+            obj.to_json()
+            obj.to_dict()
+
+    def mutate(self, obj, st):
+        """one public call that changes the object"""
+        from physt.histogram1d import Histogram1D
+        from physt.histogram_collection import HistogramCollection
+        from physt.special_histograms import TransformedHistogramMixin
+        op = st["op"]
+        h = obj
+        if isinstance(obj, HistogramCollection):
+            if op == "col_add":
+                n = obj.binning.bin_count
+                obj.add(Histogram1D(obj.binning, np.arange(n) % 5, name="added"))
+                return
+            if op == "col_create":
+                bb = np.asarray(obj.binning.bins).reshape(-1, 2)
+                lo, hi = (float(bb[0, 0]), float(bb[-1, 1])) if len(bb) else (0.0, 10.0)
+                obj.create("created", [lo + u * (hi - lo) for u in st["u"]])
+                return
+            if st.get("member") is None:
+                if op == "set_adaptive":
+                    obj.binning.set_adaptive(st["v"])
+                else:
+                    setattr(obj, op, st["v"])              # name / title of the collection
+                return
+            h = obj.histograms[st["member"] % len(obj.histograms)]
+        one = isinstance(h, Histogram1D)
+        bs = [h.binning] if one else list(h.binnings)
+        kw = {"transformed": True} if isinstance(h, TransformedHistogramMixin) else {}
+
+        def point(us):
+            v = []
+            for b, u in zip(bs, us):
+                bb = np.asarray(b.bins).reshape(-1, 2)
+                lo, hi = (float(bb[0, 0]), float(bb[-1, 1])) if len(bb) else (0.0, 10.0)
+                v.append(lo + u * (hi - lo))
+            return v[0] if one else v
+
+        if op == "set_adaptive":
+            if st["via"] == "method":
+                h.set_adaptive(st["v"])
+            elif st["via"] == "property":
+                h.adaptive = st["v"]
+            else:
+                bs[st["axis"] % len(bs)].set_adaptive(st["v"])
+        elif op == "fill":
+            v = point(st["u"])
+            if st["via"] == "lshift" and not kw:
+                h << v
+            elif st["w"] is None:
+                h.fill(v, **kw)
+            else:
+                h.fill(v, st["w"], **kw)
+        elif op == "fill_n":
+            vals = np.array([point(u) for u in st["u"]], dtype=float).reshape((-1,) if one else (-1, len(bs)))
+            h.fill_n(vals, weights=None if st["w"] is None else np.array(st["w"]), **kw)
+        elif op == "imul":
+            h *= st["c"]
+        elif op == "itruediv":
+            h /= st["c"]
+        elif op == "iadd":
+            h += h.copy()
+        elif op == "isub":
+            h -= h.copy()
+        elif op == "set_dtype":
+            if st["via"] == "method":
+                h.set_dtype(st["dtype"])
+            else:
+                h.dtype = st["dtype"]
+        elif op in ("name", "title"):
+            setattr(h, op, st["v"])
+        elif op == "axis_names":
+            if one:
+                h.axis_name = st["v"][0]
+            else:
+                h.axis_names = st["v"]
+        elif op == "meta":
+            if st["v"] == "__delete__":
+                h.meta_data.pop(st["key"], None)
+            else:
+                h.meta_data[st["key"]] = copy.deepcopy(st["v"])
+        elif op == "merge_bins":
+            h.merge_bins(st["amount"], axis=st["axis"], inplace=True)
+        elif op == "keep_missed":
+            h.keep_missed = st["v"]
+        elif op == "set_freq":
+            h.frequencies = np.asarray(h.frequencies) + st["add"]
+        elif op == "set_err2":
+            h.errors2 = np.asarray(h.errors2) + st["add"]
+        elif op == "normalize":
+            h.normalize(inplace=True)
+        elif op == "missed_slot":
+            setattr(h, st["slot"], np.nan if st["v"] is None else st["v"])
+        else:
+            raise KeyError(op)
+
+    def checkpoint(self, o, before_doc, untouched):
+        """the round trip of the object as it is now"""
+        from physt.io import parse_json
+        r = {}
+        try:
+            text = o.to_json()
+        except Exception as e:
+            d = getattr(o, "dtype", None)
+            return {"error": f"to_json() raised {type(e).__name__}: {e}"[:200], "dtype": str(d)}, None
+        try:
+            p = parse_json(text)
+            r["orig"] = snap(o)
+            r["parsed"] = snap(p)
+            r["eq"] = bool(o == p)
+            doc = canon(text)
+            doc2 = canon(p.to_json())
+            r["text_stable"] = doc2 == doc
+            if doc2 != doc:
+                r["doc_diff"] = doc_diff(json.loads(doc), json.loads(doc2))
+        except Exception as e:
+            return {"error": f"reading the document back raised {type(e).__name__}: {e}"[:200], "dtype": ""}, None
+        if untouched and before_doc is not None:
+            r["doc_unchanged"] = doc == before_doc
+        return r, doc
+
+    def run_seq(self, case):
+        objs = [self.build(case["base"])]
+        if case["twin"]:
+            objs.append(self.build(case["base"]))       # built separately: shares nothing with the first
+        docs = [None] * len(objs)
+        last = [None] * len(objs)
+        log, recs, stopped = [], [], None
+        for i, st in enumerate(case["steps"]):
+            on = st["on"] if st["on"] < len(objs) else 0
+            rec = {"step": i, "op": st["op"], "ser": st["ser"], "on": on, "status": "ok"}
+            recs.append(rec)
+            try:
+                for j, o in enumerate(objs):
+                    self.serialise(o, st["ser"])
+                    if len(objs) > 1 and st["ser"] != "none":
+                        docs[j] = canon(o.to_json())
+            except Exception as e:
+                rec["ser_error"] = f"{type(e).__name__}: {e}"[:200]
+                rec["dtype"] = str(getattr(objs[0], "dtype", ""))
+                break
+            before = last[on] if last[on] is not None else snap(objs[on])      # the state the last check point saw
+            try:
+                self.mutate(objs[on], st)
+            except Exception as e:
+                rec["status"] = "refused"
+                log.append(f"step {i} {st['op']}: {type(e).__name__}: {e}"[:160])
+            if not all(wellformed(o) for o in objs):
+                # e.g. members of a collection share an adaptive binning that grew under one of them: not C08's subject
+                stopped = rec["status"] = "ill_formed"
+                break
+            if rec["status"] == "refused" and snap(objs[on]) != before:
+                stopped = rec["status"] = "refused_but_changed"      # atomicity is C18's subject; nothing is asserted here
+                break
+            rec["objs"] = []
+            for j, o in enumerate(objs):
+                r, doc = self.checkpoint(o, docs[j], j != on)
+                docs[j] = doc
+                last[j] = r.get("orig")
+                rec["objs"].append(r)
+        return {"outs": {"steps": recs, "stopped": stopped}, "log": log}
+
 
     def run_impl(self, case):
         from physt.io import load_json, parse_json
         from physt.histogram_collection import HistogramCollection
         log = []
+        if case["kind"] == "jsonseq":
+            return self.run_seq(case)
         if case["kind"] == "version":
             from physt import h1
             from physt.histogram_collection import HistogramCollection as HC
@@ -247,6 +656,8 @@ class C08:
 
     # ------------------------------------------------------------------ model
     def model_case(self, case, io):
+        if case["kind"] == "jsonseq":
+            return None             # oracle-only: the model's op language has no histories of serialisations
         if isinstance(io["outs"], dict) and "error" in io["outs"]:
             return None
         if case["kind"] == "version":
@@ -410,6 +821,34 @@ class C08:
                 if refused != want:
                     fails.append(f"version_gate: a document requiring physt >= {v} was {'refused' if refused else 'accepted'} by {case['current']}")
             return fails
+        if case["kind"] == "jsonseq":
+            for rec in o["steps"]:
+                hist = f"after {rec['ser']}, {rec['op']}" + (" (refused)" if rec["status"] == "refused" else "")
+                if "ser_error" in rec:
+                    fails.append(f"to_json_raises: step {rec['step']}: serialising with {rec['ser']} raised {rec['ser_error']}")
+                for j, r in enumerate(rec.get("objs", [])):
+                    where = f"step {rec['step']} {hist}" + ("" if j == rec["on"] else ", the other object")
+                    if "error" in r:
+                        fails.append(f"to_json_raises: {where}: {r['error']}")
+                        continue
+                    fails += compare(r["orig"], r["parsed"], where)
+                    if not r["eq"]:
+                        fails.append(f"not_equal: {where}: parsed object != the object as it is now")
+                    if not r["text_stable"]:
+                        dd = r.get("doc_diff", [])
+                        if dd and all(x.endswith("missed(missed_keep off)") for x in dd):
+                            # counts stored in an object that does not keep missed values (keep_missed switched off later, or a
+                            # slot assigned): written, but not read back
+                            fails.append(f"missed_dropped_keep_off: {where}: the document carries missed counts although missed_keep "
+                                         f"is false; the reader drops them and the second serialisation differs in {dd}")
+                        else:
+                            fails.append(f"second_serialisation: {where}: serialising the parsed object gives a different document "
+                                         f"(entries {dd})")
+                    if r.get("doc_unchanged") is False:
+                        fails.append(f"independent_objects: {where}: its document changed although only an object that shares nothing "
+                                     f"with it was changed")
+            fails.sort(key=lambda f: f.startswith("missed_dropped_keep_off"))       # the recorded finding never hides another failure
+            return fails[:6]
         if "error" in o:
             if o["dtype"] == "float128":
                 return ["json_float128: to_json() of a float128 histogram raises " + o["error"]]
@@ -430,8 +869,7 @@ class C08:
                 fails.append("collection_members: member count changed")
             pairs = [(f"member{i}", a, b) for i, (a, b) in enumerate(zip(o["orig"]["members"], o["parsed"]["members"]))]
         for name, a, b in pairs:
-            for f in ("class", "binning_types", "bins", "freq", "err2", "shape", "dtype", "missed", "keep_missed", "adaptive", "name",
-                      "title", "axis_names", "meta", "grid"):
+            for f in FIELDS:
                 if a[f] != b[f]:
                     if f == "missed" and not a["keep_missed"]:
                         continue
@@ -441,6 +879,13 @@ class C08:
     def nontrivial(self, case, io):
         if case["kind"] == "version":
             return True
+        if case["kind"] == "jsonseq":
+            done = [r for r in io["outs"]["steps"] if r["status"] == "ok" and r.get("objs") and "orig" in r["objs"][r["on"]]]
+            if not done:
+                return False
+            o = done[-1]["objs"][done[-1]["on"]]["orig"]
+            fr = o["freq"] if "freq" in o else [x for m in o["members"] for x in m["freq"]]
+            return any(x not in ("0", None) for x in fr)
         if "error" in io["outs"]:
             return False
         o = io["outs"]["orig"]
@@ -448,18 +893,40 @@ class C08:
         return any(x not in ("0", None) for x in fr)
 
     def tags(self, case, io):
-        return list(case["tags"])
+        t = list(case["tags"])
+        if case["kind"] == "jsonseq":
+            for r in io["outs"]["steps"]:
+                t += ["seq:ser:" + r["ser"], "seq:op:" + r["op"]]
+                if r["status"] != "ok":
+                    t.append(f"seq:{r['status']}:{r['op']}")
+            t.append(f"seq:steps:{len(case['steps'])}")
+        return t
 
     def matches_known(self, finding, case):
         if finding.get("signature") == "json_float128":
             return case.get("kind") == "json1" and case["spec"]["dtype"] == "float128"
+        if finding.get("signature") == "missed_dropped_keep_off":
+            # only histories that switch keep_missed or assign a missed slot can leave counts in a 1-D object that keeps none
+            return case.get("kind") == "jsonseq" and any(st["op"] in ("keep_missed", "missed_slot") for st in case["steps"])
         return False
 
     def neighbours(self, case):
         return []
 
     def shrink_candidates(self, case):
-        return []
+        if case.get("kind") != "jsonseq":
+            return []
+        out = []
+        steps = case["steps"]
+        if case["twin"]:
+            out.append({**case, "twin": False, "steps": [{**s, "on": 0} for s in steps], "tags": [t for t in case["tags"] if t != "seq:twin"]})
+        for i in range(len(steps)):
+            if len(steps) > 1:
+                out.append({**case, "steps": steps[:i] + steps[i + 1:]})
+        for i, s in enumerate(steps):
+            if s["ser"] not in ("to_json", "none"):
+                out.append({**case, "steps": steps[:i] + [{**s, "ser": "to_json"}] + steps[i + 1:]})
+        return out
 
 
 PROP = C08()
